@@ -409,6 +409,8 @@ struct C09 {
     static uint32_t gen_len(Rng &r, bool thorough) {
         static const uint32_t edges[] = {0, 1, 15, 16, 17, 31, 32, 33, 47, 48, 63, 64, 65, 127, 128, 129, 191, 192, 255, 256, 257, 511, 512, 513, 1023, 1024};
         unsigned c = (unsigned) r.below(10);
+        // rarely: tens of kilobytes (many iterations of the widest SIMD loops, block counters beyond one byte)
+        if (r.below(thorough ? 60 : 150) == 0) return (uint32_t) r.pick<uint32_t>({4097, 8192, 16383, 16384 + 65, 40000, 65536, 65536 + 257, 70001});
         if (c < 6) return edges[r.below(sizeof edges / sizeof edges[0])];
         if (c < 9) return (uint32_t) r.below(300);
         return (uint32_t) r.below(thorough ? 4097 : 1500);
@@ -576,7 +578,7 @@ struct C09 {
         ev["components"] = comp;
         Json as = Json::array();
         as.push("a forged or foreign chunk passes Poly1305 verification with probability 2^-128; treated as never");
-        as.push("message sizes <= 4096 bytes, <= 60 operations per run; sizes near MESSAGEBYTES_MAX are out of reach");
+        as.push("message sizes mostly <= 4096 bytes with occasional ones up to ~70 KB, <= 60 operations per run; sizes near MESSAGEBYTES_MAX are out of reach");
         as.push("the chunk counter is positioned at 2^32-k by writing the public state struct, exactly as the property's quantifier describes");
         ev["assumptions"] = as;
         ev["simulated_time_note"] = "the property reads no clock; progress is counted in transport/operation steps (sim_steps)";
